@@ -551,6 +551,196 @@ def run_gsde(c, out):
     out.check(bool(th.allclose(lp2, dist.log_prob(a2), rtol=0, atol=0)), "oracle-gsde-log-prob-from-params", "log_prob_from_params disagrees with log_prob(sample)")
 
 
+
+# ---------------------------------------------------------------- multi-step histories on ONE distribution object
+def _hist_params(rng, fam, shape, b):
+    """fresh parameters of batch b for a distribution of the fixed `shape` description"""
+    if fam in ("gauss", "squashed"):
+        d = shape["d"]
+        return {"mean": [[rng.uniform(-3, 3) for _ in range(d)] for _ in range(b)], "log_std": [_ls(rng) for _ in range(d)]}
+    if fam == "categorical":
+        return {"logits": [[_logit(rng, shape["scale"]) for _ in range(shape["n"])] for _ in range(b)]}
+    if fam == "multicat":
+        return {"logits": [[_logit(rng, shape["scale"]) for _ in range(sum(shape["dims"]))] for _ in range(b)]}
+    if fam == "bernoulli":
+        return {"logits": [[_logit(rng, shape["scale"]) for _ in range(shape["n"])] for _ in range(b)]}
+    k, d = shape["k"], shape["d"]
+    return {"mean": [[rng.uniform(-2, 2) for _ in range(d)] for _ in range(b)], "latent": [[rng.uniform(-2, 2) for _ in range(k)] for _ in range(b)],
+            "log_std": [[_ls(rng) for _ in range(d if shape["full_std"] else 1)] for _ in range(k)]}
+
+
+def _hist_actions(rng, fam, shape, b):
+    if fam == "gauss" or (fam == "gsde" and not shape["squash"]):
+        return [[rng.uniform(-4, 4) for _ in range(shape["d"])] for _ in range(b)]
+    if fam == "squashed" or fam == "gsde":
+        return [[min(max(math.tanh(rng.gauss(0, 1.5)), -(1 - 1e-4)), 1 - 1e-4) for _ in range(shape["d"])] for _ in range(b)]
+    if fam == "categorical":
+        return [rng.randrange(shape["n"]) for _ in range(b)]
+    if fam == "multicat":
+        return [[rng.randrange(n) for n in shape["dims"]] for _ in range(b)]
+    return [[float(rng.randrange(2)) for _ in range(shape["n"])] for _ in range(b)]
+
+
+def gen_history(rng, i):
+    fam = ["squashed", "gauss", "categorical", "multicat", "bernoulli", "gsde", "squashed"][i % 7]
+    shape = {"gauss": lambda: {"d": rng.randint(1, 4)}, "squashed": lambda: {"d": rng.randint(1, 4), "epsilon": 1e-6},
+             "categorical": lambda: {"n": rng.randint(2, 6), "scale": rng.choice([1, 10])}, "multicat": lambda: {"dims": [rng.randint(2, 4) for _ in range(rng.randint(1, 3))], "scale": 1},
+             "bernoulli": lambda: {"n": rng.randint(1, 4), "scale": rng.choice([1, 10])},
+             "gsde": lambda: {"k": rng.randint(1, 3), "d": rng.randint(1, 3), "full_std": rng.random() < 0.5, "use_expln": rng.random() < 0.5, "squash": rng.random() < 0.5, "epsilon": 1e-6}}[fam]()
+    b = rng.randint(1, 4)
+    ops = [["proba", _hist_params(rng, fam, shape, b)]]
+    for _ in range(rng.randint(3, 7)):
+        k = rng.random()
+        if k < 0.12:
+            b = rng.randint(1, 4)
+            ops.append(["proba", _hist_params(rng, fam, shape, b)])
+        elif k < 0.27:
+            ops.append(["sample"])
+        elif k < 0.37:
+            ops.append(["mode"])
+        elif k < 0.47:
+            ops.append(["get_actions", rng.random() < 0.5])
+        elif k < 0.55:
+            b = rng.randint(1, 4)
+            ops.append(["actions_from_params", _hist_params(rng, fam, shape, b), rng.random() < 0.5])
+        elif k < 0.63:
+            b = rng.randint(1, 4)
+            ops.append(["log_prob_from_params", _hist_params(rng, fam, shape, b)])
+        elif k < 0.9:
+            bb = rng.randint(2, 4) if (b == 1 and fam in ("gauss", "squashed") and rng.random() < 0.5) else b
+            ops.append(["log_prob", _hist_actions(rng, fam, shape, bb)])
+        else:
+            ops.append(["entropy"])
+    if ops[-1][0] != "log_prob":
+        ops.append(["log_prob", _hist_actions(rng, fam, shape, b)])
+    return {"family": "history", "dist": fam, "shape": shape, "ops": ops, "seed": rng.randint(0, 10**6), "id": f"h{i}", "b": 2, "d": 2}
+
+
+def _hist_row(fam, shape, P, r):
+    """(oracle log_prob function of an action row, Coq model expression builder) for batch row r of params P"""
+    if fam == "gauss":
+        m, ls = P["mean"][r], P["log_std"]
+        return (lambda a: sum(o_normal(mu, math.exp(s), x) for mu, s, x in zip(m, ls, a)), lambda a: f"gauss_logprob {gp(m, ls)} {RL(a)}",
+                lambda: sum(o_normal_entropy(math.exp(s)) for s in ls))
+    if fam == "squashed":
+        m, ls, eps = P["mean"][r], P["log_std"], shape["epsilon"]
+        return (lambda a: sum(o_normal(mu, math.exp(s), math.atanh(x)) for mu, s, x in zip(m, ls, a)) - sum(math.log(1 - x * x + eps) for x in a),
+                lambda a: f"squashed_logprob {R(FEPS)} {R(eps)} {gp(m, ls)} {RL(a)}", None)
+    if fam == "categorical":
+        l = P["logits"][r]
+        return (lambda a: l[a] - o_lse(l), lambda a: f"cat_logprob {RL(l)} {a}%nat", lambda: o_cat_entropy(l))
+    if fam == "multicat":
+        l, dims = P["logits"][r], shape["dims"]
+        offs = [sum(dims[:i]) for i in range(len(dims) + 1)]
+        parts = [l[offs[i]:offs[i + 1]] for i in range(len(dims))]
+        return (lambda a: sum(p[k] - o_lse(p) for p, k in zip(parts, a)), lambda a: f"multicat_logprob (split_logits {NL(dims)} {RL(l)}) {NL(a)}",
+                lambda: sum(o_cat_entropy(p) for p in parts))
+    if fam == "bernoulli":
+        l = P["logits"][r]
+        return (lambda a: sum(o_bern(x, k) for x, k in zip(l, a)),
+                lambda a: f"bernoulli_logprob {RL(l)} [" + "; ".join("true" if x else "false" for x in a) + "]", lambda: sum(o_bern_entropy(x) for x in l))
+    k, d, eps = shape["k"], shape["d"], shape["epsilon"]
+    full, expln, squash = shape["full_std"], shape["use_expln"], shape["squash"]
+    x, m = P["latent"][r], P["mean"][r]
+    ls_of = lambda i, j: P["log_std"][i][j if full else 0]  # noqa: E731
+    std = [[(o_expln(ls_of(i, j), eps) if expln else math.exp(ls_of(i, j))) for j in range(d)] for i in range(k)]
+    sig = [math.sqrt(sum(x[i] ** 2 * std[i][j] ** 2 for i in range(k)) + eps) for j in range(d)]
+    be = "true" if expln else "false"
+    cols = "[" + "; ".join("[" + "; ".join(f"gsde_get_std {be} {R(eps)} {R(ls_of(i, j))}" for i in range(k)) + "]" for j in range(d)) + "]"
+    if squash:
+        return (lambda a: sum(o_normal(m[j], sig[j], math.atanh(a[j])) - math.log(1 - a[j] ** 2 + eps) for j in range(d)),
+                lambda a: f"gsde_logprob_squashed {R(FEPS)} {R(eps)} {RL(x)} {RL(m)} {cols} {RL(a)}", None)
+    return (lambda a: sum(o_normal(m[j], sig[j], a[j]) for j in range(d)), lambda a: f"gsde_logprob {R(eps)} {RL(x)} {RL(m)} {cols} {RL(a)}",
+            lambda: sum(o_normal_entropy(s_) for s_ in sig))
+
+
+def run_history(c, out):
+    """one distribution object through a random sequence of public calls; every log_prob(actions) must be the
+    log-probability of the GIVEN actions under the CURRENT parameters (no stale cache), every entropy the current one"""
+    th, D = _imports()
+    fam, shape = c["dist"], c["shape"]
+    th.manual_seed(c["seed"])
+    if fam == "gauss":
+        dist = D.DiagGaussianDistribution(shape["d"])
+    elif fam == "squashed":
+        dist = D.SquashedDiagGaussianDistribution(shape["d"], epsilon=shape["epsilon"])
+    elif fam == "categorical":
+        dist = D.CategoricalDistribution(shape["n"])
+    elif fam == "multicat":
+        dist = D.MultiCategoricalDistribution(shape["dims"])
+    elif fam == "bernoulli":
+        dist = D.BernoulliDistribution(shape["n"])
+    else:
+        dist = D.StateDependentNoiseDistribution(shape["d"], full_std=shape["full_std"], use_expln=shape["use_expln"], squash_output=shape["squash"], epsilon=shape["epsilon"])
+        dist.proba_distribution_net(latent_dim=shape["k"])
+
+    def args(P):
+        if fam == "gsde":  # the policy re-draws the exploration matrices (reset_noise) in the parameters' dtype
+            dist.sample_weights(t64(th, P["log_std"]), batch_size=len(P["mean"]))
+        if fam in ("gauss", "squashed"):
+            return (t64(th, P["mean"]), t64(th, P["log_std"]))
+        if fam == "gsde":
+            return (t64(th, P["mean"]), t64(th, P["log_std"]), t64(th, P["latent"]))
+        return (t64(th, P["logits"]),)
+
+    def act_tensor(a):
+        return th.tensor(a, dtype=th.int64) if fam in ("categorical", "multicat") else t64(th, a)
+
+    P, n_goals, trace = None, 0, []
+    for step, op in enumerate(c["ops"]):
+        name = op[0]
+        trace.append(name)
+        if name == "proba":
+            P = op[1]
+            dist.proba_distribution(*args(P))
+        elif name == "sample":
+            dist.sample()
+        elif name == "mode":
+            dist.mode()
+        elif name == "get_actions":
+            dist.get_actions(deterministic=op[1])
+        elif name == "actions_from_params":
+            P = op[1]
+            dist.actions_from_params(*args(P), deterministic=op[2])
+        elif name == "log_prob_from_params":
+            P = op[1]
+            a2, lp2 = dist.log_prob_from_params(*args(P))
+            a2l, lp2l = a2.tolist(), lp2.reshape(-1).tolist()
+            if fam not in ("squashed", "gsde") or all(abs(x) < 1 - 1e-6 for row in a2l for x in (row if isinstance(row, list) else [row])):
+                for r in range(len(lp2l)):
+                    f, _, _ = _hist_row(fam, shape, P, r)
+                    if fam in ("squashed",) or (fam == "gsde" and shape["squash"]):
+                        if any(abs(math.atanh(x)) > 3 for x in a2l[r]):
+                            continue
+                        out.oracle(f"{fam}-history-log-prob-from-params", f(a2l[r]), lp2l[r], rel=1e-6)
+                    else:
+                        out.oracle(f"{fam}-history-log-prob-from-params", f(a2l[r]), lp2l[r])
+        elif name == "entropy":
+            ent = dist.entropy()
+            if ent is not None:
+                el = ent.reshape(-1).tolist()
+                for r in range(len(el)):
+                    _, _, fe = _hist_row(fam, shape, P, r)
+                    out.oracle(f"{fam}-history-entropy", fe(), el[r])
+        else:
+            acts = op[1]
+            lp = dist.log_prob(act_tensor(acts)).reshape(-1).tolist()
+            pb = len(P["mean"]) if "mean" in P else len(P["logits"])
+            if len(lp) != len(acts):
+                out.check(False, f"oracle-{fam}-history-logprob-shape", f"log_prob returned {len(lp)} values for {len(acts)} actions")
+                continue
+            for r in range(len(acts)):
+                f, g, _ = _hist_row(fam, shape, P, r if pb > 1 else 0)
+                want = f(acts[r])
+                out.checks += 1
+                if not (math.isfinite(lp[r]) and close(want, lp[r], 1e-8)):
+                    out.problems.append((f"oracle-{fam}-history-logprob-not-at-given-actions",
+                                         f"after {trace}: log_prob(actions)[{r}] = {lp[r]!r}, log-probability of the GIVEN action {acts[r]} under the current parameters = {want!r}"))
+                if n_goals < 3 and math.isfinite(lp[r]):
+                    n_goals += 1
+                    out.goal(f"{fam}-history-logprob", g(acts[r]), lp[r])
+
+
 RUNNERS = {"gauss": run_gauss, "squashed": run_squashed, "categorical": run_categorical, "multicat": run_multicat, "bernoulli": run_bernoulli, "gsde": run_gsde}
 
 
@@ -731,6 +921,8 @@ def run_cases(cases):
         try:
             if c["family"] == "squashed-mode":
                 run_mode_finding(c, out)
+            elif c["family"] == "history":
+                run_history(c, out)
             else:
                 RUNNERS[c["family"]](c, out)
         except Exception as e:  # the API refused a valid input or crashed
@@ -752,6 +944,8 @@ def main():
     n_corpus = len(cases)
     for i in range(n_cases):
         cases.append(gen_case(chk.rng, i))
+    for i in range(28 if chk.tier == "quick" else 400):
+        cases.append(gen_history(chk.rng, i))
     import time as _t
     t_py = _t.time()
     outs = run_cases(cases)
